@@ -41,6 +41,11 @@ Definition model (fn : N) (args : list Z) : option (option (list Z)) :=
       | SVal (y, m, d) tod => Some (Some [y; m; d; tod])
       | SUnmodelled => None
       end
+  (* CAST('YYYY-MM-DD' AS DATE), month 1..12, day 1..31 *)
+  | 13%N, [y; m; d] => Some (d3 (cast_date_str y m d))
+  (* TIMESTAMPDIFF(MONTH | QUARTER | YEAR): months per unit, then the two moments (time of day in seconds) *)
+  | 14%N, [per; y1; m1; d1; t1; y2; m2; d2; t2] =>
+      Some (Some [timestampdiff_months per ((y1, m1, d1), t1) ((y2, m2, d2), t2)])
   | _, _ => None
   end.
 
